@@ -32,4 +32,31 @@ func init() {
 		}
 		return strings.Join(log, ","), nil
 	}
+	// D18_interrupt_in_tostring_of_struct_field_store: global code stores an object into a string
+	// field of a bridged struct; its toString arms the interrupt (a function that panics with the
+	// Go string "halt") and loops.  The witness reports what the script logged and how Run ended.
+	core.GoWitnesses["c18_interrupt_struct_string_field"] = func() (res string, err error) {
+		vm := otto.New()
+		vm.Interrupt = make(chan func(), 1)
+		var log []string
+		vm.Set("L", func(call otto.FunctionCall) otto.Value {
+			log = append(log, call.Argument(0).String())
+			return otto.UndefinedValue()
+		})
+		vm.Set("arm", func(call otto.FunctionCall) otto.Value {
+			vm.Interrupt <- func() { panic("halt") }
+			return otto.UndefinedValue()
+		})
+		vm.Set("gp", &bridgeSt{1, "s"})
+		defer func() {
+			if p := recover(); p != nil {
+				res = fmt.Sprintf("%s; GO PANIC %v", strings.Join(log, ","), p)
+			}
+		}()
+		_, e := vm.Run(`try { gp.S = {toString: function(){ arm(); for (var i = 0; i < 1000; i++) {} return "t" }}; L("after") } catch (e) { L("catch " + e) } finally { L("finally") }; L("end")`)
+		if e != nil {
+			return fmt.Sprintf("%s; error %v", strings.Join(log, ","), e), nil
+		}
+		return strings.Join(log, ",") + "; returned", nil
+	}
 }
